@@ -92,6 +92,19 @@ var variantNames = []string{
 	"canonical-again",
 }
 
+// documentedIgnored: the system namespaces the injector documents as never injected (stated here independently of
+// inject.IgnoredNamespaces, which is the code under test).
+var documentedIgnored = []string{"kube-node-lease", "kube-public", "kube-system", "local-path-storage"}
+
+func isDocumentedIgnored(ns string) bool {
+	for _, n := range documentedIgnored {
+		if n == ns {
+			return true
+		}
+	}
+	return false
+}
+
 func ignoredSorted() []string {
 	l := inject.IgnoredNamespaces.UnsortedList()
 	sort.Strings(l)
@@ -127,7 +140,7 @@ func realise(r row, variant int) (*inject.Config, *corev1.PodSpec, metav1.Object
 	meta := metav1.ObjectMeta{Labels: map[string]string{"app": "x"}, Annotations: map[string]string{}}
 
 	// namespace
-	ign := ignoredSorted()
+	ign := documentedIgnored
 	if r.nsIgnored {
 		meta.Namespace = "kube-system"
 		if variant == 2 {
